@@ -353,6 +353,12 @@ def array_attr(np_, a, name):
         raise Untranslatable("size of n-d symbolic-extent array")
     if name == "copy":
         return Builtin("copy", lambda *x, **k: TArr(a.term, a.shape, a.dtype))
+    if name == "T":
+        if a.ndim < 2:
+            return TArr(a.term, a.shape, a.dtype)
+        if a.ndim != 2:
+            raise Untranslatable("transpose of an n-d symbolic-extent array")
+        return from_fn(np_, (a.shape[1], a.shape[0]), a.dtype, lambda i, j: z3.Select(a.term, j, i))
     if name == "astype":
         def astype(dt, **k):
             dt = _np.dtype(dt)
